@@ -12,8 +12,10 @@ func main() {
 		os.Exit(2)
 	}
 	repo, out := os.Args[1], os.Args[2]
-	if err := genLayouts(repo, out); err != nil {
-		fmt.Fprintln(os.Stderr, err)
-		os.Exit(1)
+	for _, f := range []func(string, string) error{genLayouts, genPanicSites} {
+		if err := f(repo, out); err != nil {
+			fmt.Fprintln(os.Stderr, err)
+			os.Exit(1)
+		}
 	}
 }
